@@ -586,3 +586,68 @@ def run(model, col, tier):
     gp = bb.own_method("GetPreviousInstruction")
     col.check(_previous_ok(bb, gp), "R02.7", f"{IR}::BasicBlock.GetPreviousInstruction",
               "the directly preceding instruction of the same block (index - 1), None for the first", "GetPreviousInstruction does not return the directly preceding instruction of the same block", IR, gp)
+    # ---------------- R02.11 the bookkeeping the rewrites run on -------------------------------------
+    # replacing by reference is only sound if a reference names one value of the function: all values draw their number from
+    # one allocator (= R14.1), whose table only grows
+    from ..report import Collector as _C211
+    from . import c14 as _c14
+
+    sub = _C211("C14")
+    _c14.check_allocator(model, sub)
+    n211 = 0
+    for ob in sub.obligations:
+        if ob.rule == "R14.1":
+            ob.rule = "R02.11"
+            col.obligations.append(ob)
+            n211 += 1
+    col.floor("R02.11", "allocator obligations shared with C14", n211, 8)
+    check_value_table(model, col, "R02.11")
+
+
+def check_value_table(model, col, rule):
+    """Function.__values (its length is the next fresh reference) only grows; BasicBlock.UpdateUses records every user of
+    every used value."""
+    fn = model.cls(IR, "Function")
+    fld = mangle("Function", "__values")
+    bad = []
+    for name, m in fn.methods.items():
+        if not m.args.args:
+            continue
+        s = m.args.args[0].arg
+        for x in ast.walk(m):
+            tg = x.targets if isinstance(x, ast.Assign) else [x.target] if isinstance(x, (ast.AugAssign, ast.AnnAssign)) else x.targets if isinstance(x, ast.Delete) else []
+            for t in tg:
+                b = t
+                while isinstance(b, ast.Subscript):
+                    b = b.value
+                if isinstance(b, ast.Attribute) and isinstance(b.value, ast.Name) and b.value.id == s and mangle("Function", b.attr) == fld:
+                    if not (name == "__init__" and t is b):
+                        bad.append(f"{name}: `{' '.join(unparse(x).split())[:60]}`")
+            if isinstance(x, ast.Call) and isinstance(x.func, ast.Attribute) and isinstance(x.func.value, ast.Attribute) and isinstance(x.func.value.value, ast.Name) \
+                    and x.func.value.value.id == s and mangle("Function", x.func.value.attr) == fld and x.func.attr in ("pop", "remove", "clear", "insert", "extend", "sort", "reverse"):
+                bad.append(f"{name}: `{unparse(x.func)}`")
+    col.check(not bad, rule, f"{IR}::Function value table only grows", "bound in __init__, appended to by RegisterValue, never shrunk or re-bound",
+              f"{bad}: the next reference is the table's length, so after an entry is dropped a new value gets a number that is still in use - replacing `by reference` then rewires "
+              "operands of the wrong value", IR, fn.node)
+    bb = model.cls(IR, "BasicBlock")
+    uu = bb.own_method("UpdateUses")
+    if uu is None:
+        raise AnchorMissing(f"{IR}::BasicBlock.UpdateUses")
+    ok = False
+    for outer in [l for l in ast.walk(uu) if isinstance(l, ast.For) and isinstance(l.target, ast.Name)]:
+        if not (isinstance(outer.iter, ast.Attribute) and "instructions" in outer.iter.attr):
+            continue
+        for inner in [l for b_ in outer.body for l in ast.walk(b_) if isinstance(l, ast.For) and isinstance(l.target, ast.Name)]:
+            if not any(isinstance(a, ast.Attribute) and a.attr == "Uses" and isinstance(a.value, ast.Name) and a.value.id == outer.target.id for a in ast.walk(inner.iter)):
+                continue
+            for st in inner.body:
+                c = st.value if isinstance(st, ast.Expr) else None
+                if isinstance(c, ast.Call) and last_attr(c) == "append" and len(c.args) == 1 and isinstance(c.args[0], ast.Name) and c.args[0].id == outer.target.id:
+                    recv = c.func.value
+                    key = recv.slice if isinstance(recv, ast.Subscript) else recv.args[0] if isinstance(recv, ast.Call) and last_attr(recv) == "setdefault" and recv.args else None
+                    base = recv.value if isinstance(recv, ast.Subscript) else recv.func.value if isinstance(recv, ast.Call) and isinstance(recv.func, ast.Attribute) else None
+                    if isinstance(key, ast.Name) and key.id == inner.target.id and isinstance(base, ast.Attribute) and "uses" in base.attr:
+                        ok = True
+    col.check(ok, rule, f"{IR}::BasicBlock.UpdateUses records every user", "for every instruction, for every value it uses: uses[value].append(instruction)",
+              "UpdateUses no longer appends each using instruction to the list of each value it uses: when a value has several users only some are rewired by ReplaceUses, "
+              "the others keep naming the removed instruction", IR, uu)
